@@ -234,6 +234,7 @@ struct Tie {
     n_ss_steps: usize,
     n_newton_steps: usize,
     n_newton_direct: usize,
+    undetermined_steps: usize,
     max_step_goals: usize,
 }
 
@@ -366,11 +367,14 @@ fn tie_feed<E: Residual>(feed: &State<E>, key: &Value, opts_i: usize, tie: &mut 
             }
         }
         let mut trace = Vec::new();
-        let mut kinds = Vec::new();
+        let mut kinds: Vec<Option<bool>> = Vec::new();
+        let mut tpd_prev = 1e10f64;
         let mut ok = true;
         for k in 1..=it {
             let (prev, cur) = (&states[k - 1], &states[k]);
-            let p = prev.ln_phi().to_vec();
+            // derivative-evaluating calls only on clones: the cache of a State makes ln_phi depend (at round-off level, amplified
+            // by 1/Z for liquids at low pressure) on whether second derivatives were requested before
+            let mut p = prev.clone().ln_phi().to_vec();
             let w = prev.moles.to_reduced().to_vec();
             let y = cur.moles.to_reduced().to_vec();
             if !all_finite(&p) || !all_finite(&y) || y.iter().any(|x| *x <= 0.0) || w.iter().any(|x| *x <= 0.0) {
@@ -378,7 +382,27 @@ fn tie_feed<E: Residual>(feed: &State<E>, key: &Value, opts_i: usize, tie: &mut 
                 break;
             }
             let c: Vec<f64> = (0..n).map(|j| (d[j] - p[j]).exp()).collect();
-            let is_ss = (0..n).all(|j| (y[j] / c[j] - 1.0).abs() < 1e-9);
+            let ss_match = (0..n).all(|j| (y[j] / c[j] - 1.0).abs() < 1e-13);
+            // what the real Newton step would have produced from the previous iterate (deterministic: bit-for-bit)
+            let newton_match = {
+                let mut sn = prev.clone();
+                let mut tp = tpd_prev;
+                run_guard(|| sn.verif_stability_newton_step(&darr, &mut tp)).is_ok() && sn.moles.to_reduced().to_vec() == y
+            };
+            if newton_match && !ss_match {
+                // the Newton step reads ln_phi after dln_phi_dnj (line 163-164)
+                let c2 = prev.clone();
+                let _ = c2.dln_phi_dnj();
+                p = c2.ln_phi().to_vec();
+            }
+            let (is_ss, determined) = match (ss_match, newton_match) {
+                (true, false) => (true, true),
+                (false, true) => (false, true),
+                _ => ((0..n).all(|j| (y[j] / c[j] - 1.0).abs() < 1e-9), false),
+            };
+            if !determined {
+                tie.undetermined_steps += 1;
+            }
             let triv = PhaseEquilibrium::is_trivial_solution(feed, cur);
             let last = k == it && outcome.0 == 1;
             let (err, tpd);
@@ -387,7 +411,7 @@ fn tie_feed<E: Residual>(feed: &State<E>, key: &Value, opts_i: usize, tie: &mut 
                 tpd = 1.0 - sc;
                 err = (0..n).map(|j| (c[j] / sc - prev.molefracs[j]).abs()).sum::<f64>();
                 tie.n_ss_steps += 1;
-                if tie.step_goals.len() < tie.max_step_goals && (k <= 2 || last) {
+                if determined && tie.step_goals.len() < tie.max_step_goals && (k <= 2 || last) {
                     let mut v = String::new();
                     for j in 0..n {
                         v.push_str(&format!("Goal Rabs (nth {j} (ss_map {} {}) 0 - dy_R {}%Z) <= {:e}.\nProof. tpd_interval. Qed.\n", rlist(&d), rlist(&p), dyadic(y[j]), 1e-12 * (1.0 + y[j].abs())));
@@ -403,8 +427,8 @@ fn tie_feed<E: Residual>(feed: &State<E>, key: &Value, opts_i: usize, tie: &mut 
                 err = (0..n).map(|j| (w[j].sqrt() * g[j]).abs()).sum::<f64>();
                 tpd = 1.0 + (0..n).map(|j| y[j] * (y[j].ln() + p[j] - d[j] - 1.0)).sum::<f64>();
                 tie.n_newton_steps += 1;
-                if tie.step_goals.len() < tie.max_step_goals {
-                    let dm = (prev.dln_phi_dnj() * Moles::from_reduced(1.0)).into_value();
+                if determined && tie.step_goals.len() < tie.max_step_goals {
+                    let dm = (prev.clone().dln_phi_dnj() * Moles::from_reduced(1.0)).into_value();
                     let dphi: Vec<Vec<f64>> = (0..n).map(|a| (0..n).map(|b| dm[[a, b]]).collect()).collect();
                     newton_goals(&w, &y, &p, &d, &dphi, None, if last { outcome.1 } else { None },
                         json!({"key": key, "trial": i, "iteration": k, "kind": "newton (inside minimize_tpd)", "accepted_here": last, "error": err, "tpd": tpd}), tie);
@@ -418,7 +442,8 @@ fn tie_feed<E: Residual>(feed: &State<E>, key: &Value, opts_i: usize, tie: &mut 
                 }
             }
             trace.push(format!("(({}, {}), {})", dyadic(err), dyadic(tpd), triv));
-            kinds.push(!is_ss);
+            kinds.push(if determined { Some(!is_ss) } else { None });
+            tpd_prev = tpd;
             // is_trivial_solution model
             if tie.triv_cases.len() < 400 {
                 let rc = cur.partial_density.to_reduced().to_vec();
@@ -436,10 +461,11 @@ fn tie_feed<E: Residual>(feed: &State<E>, key: &Value, opts_i: usize, tie: &mut 
         // a Newton step of the real code from an early iterate (Murray regularisation active far from the minimum)
         if tie.n_newton_direct < tie.max_step_goals / 3 && states.len() > 1 {
             let s0 = &states[(states.len() - 1).min(2)];
-            let p = s0.ln_phi().to_vec();
+            let s0c = s0.clone();
+            let dm = (s0c.dln_phi_dnj() * Moles::from_reduced(1.0)).into_value();
+            let p = s0c.ln_phi().to_vec();
             let w = s0.moles.to_reduced().to_vec();
             if all_finite(&p) && w.iter().all(|x| *x > 0.0) {
-                let dm = (s0.dln_phi_dnj() * Moles::from_reduced(1.0)).into_value();
                 let dphi: Vec<Vec<f64>> = (0..n).map(|a| (0..n).map(|b| dm[[a, b]]).collect()).collect();
                 let mut s1 = s0.clone();
                 let mut tpd = 1.0 - w.iter().sum::<f64>();
@@ -448,6 +474,11 @@ fn tie_feed<E: Residual>(feed: &State<E>, key: &Value, opts_i: usize, tie: &mut 
                     let y = s1.moles.to_reduced().to_vec();
                     if all_finite(&y) && y.iter().all(|x| *x > 0.0) && dphi.iter().all(|r| all_finite(r)) {
                         tie.n_newton_direct += 1;
+                        if std::env::var("C07_DEBUG").is_ok() {
+                            let t2 = 1.0 + (0..n).map(|j| y[j] * (y[j].ln() + p[j] - d[j] - 1.0)).sum::<f64>();
+                            let p2 = s0.clone().ln_phi().to_vec();
+                            eprintln!("newton direct: tpd hook {tpd:e} harness {t2:e} diff {:e}; p {:?} p2 {:?} y {:?} w {:?}", tpd - t2, p, p2, y, w);
+                        }
                         newton_goals(&w, &y, &p, &d, &dphi, Some(err), Some(tpd),
                             json!({"key": key, "trial": i, "kind": "newton (hooked stability_newton_step)", "tpd_in": tpd_in, "error": err, "tpd": tpd}), tie);
                     }
@@ -917,7 +948,7 @@ fn main() {
         "tpd_goals": tpd_files,
         "step_goals": step_files, "ctrl": ctrl_files, "stab": stab_files, "triv": triv_files,
         "tie": {"feeds_kept": keep_pc.len() + keep_pr.len(), "substitution_steps_seen": tie.n_ss_steps, "newton_steps_seen_inside_minimize_tpd": tie.n_newton_steps,
-                "newton_steps_hooked": tie.n_newton_direct, "formula_mismatch": tie.formula_mismatch},
+                "newton_steps_hooked": tie.n_newton_direct, "steps_consistent_with_both_or_neither_kind_(flag_not_compared)": tie.undetermined_steps, "formula_mismatch": tie.formula_mismatch},
         "support": {
             "systems": systems,
             "mixture_points": counts[0], "envelope_unavailable": counts[1], "points_with_inside_feed": counts[2], "envelope_narrower_than_margins": counts[3],
